@@ -246,6 +246,37 @@ def two_callers_case(case):
     return preempt.check_pair(make, judge, case.get('k'))
 
 
+def bigint_crowd_case(case):
+    """More agents than any small-population threshold, at integer coordinates beyond 2**53 (neighbours collapse onto one
+    double), queried with all-integer arguments: Python integers compare exactly."""
+    reset_library()
+    n = case['n']
+    model = new_model(seed=1)
+    env = model.environment = Envs.SpaceWorld(model, 2 ** 60, 2 ** 60, 0)
+    agents = []
+    for i in range(n):
+        a = Core.Agent(f'b{i}', model)
+        env.add_agent(a, 2 ** 53 + i, 2 ** 54 + 3 * i, 0)
+        agents.append(a)
+    q = 0
+    for i in (0, 1, n // 2, n - 1):
+        for lw in (0, 1, 3):
+            x, y = 2 ** 53 + i, 2 ** 54 + 3 * i
+            got = env.get_agents_at(x, y, 0, lw, 0, 0, 0)
+            want = [a for j, a in enumerate(agents) if abs(j - i) <= lw and abs(3 * j - 3 * i) <= lw]
+            q += 1
+            if got != want:
+                raise Violation(f'{n} agents at integer coordinates beyond 2**53: query at agent b{i} with integer leeway {lw}',
+                                expected=[a.id for a in want], observed=[a.id for a in got])
+            got = env.get_agents_at(x, y, 0, 0, lw, 3 * lw, 0)
+            want = [a for j, a in enumerate(agents) if abs(j - i) <= lw]
+            q += 1
+            if got != want:
+                raise Violation(f'{n} agents at integer coordinates beyond 2**53: query at agent b{i} with per-axis integer '
+                                f'leeways ({lw}, {3 * lw})', expected=[a.id for a in want], observed=[a.id for a in got])
+    return q
+
+
 def nan_case(case):
     """Not-a-number coordinates: an agent whose position is NaN on some axis is inside no box, and a query point with
     a NaN coordinate has nobody inside its box (every comparison with NaN is false)."""
@@ -592,12 +623,13 @@ def run(ctx):
     extra += [{'leg': 'two_callers', 'world': wn, 'a': a, 'b': b} for wn in ('space4x3x0', 'grid4x3')
               for a, b in ((0, 1), (1, 0), (2, 3), (3, 2), (0, 0))]
     extra += [{'leg': 'nan', 'world': wn, 'wrap': wr} for wn in ('space4x3x0', 'grid4x3', 'disc4x3x2') for wr in (False, True)]
+    extra += [{'leg': 'bigint_crowd', 'n': n} for n in (10, 70, 300)]
     for case in extra:
         if ctx.violations:
             break
         ctx.traces += 1
         try:
-            ctx.transitions += hbfs._guard({'crowd': crowd_case, 'nan': nan_case, 'resized_world': resized_world_case, 'two_callers': two_callers_case}.get(case['leg'], replaced_world_case), case)
+            ctx.transitions += hbfs._guard({'crowd': crowd_case, 'nan': nan_case, 'bigint_crowd': bigint_crowd_case, 'resized_world': resized_world_case, 'two_callers': two_callers_case}.get(case['leg'], replaced_world_case), case)
         except Violation as v:
             ctx.report(dict(case, k=v.case_k) if hasattr(v, 'case_k') else case, v)
     ctx.leg('crowd_and_replaced_world', cases=len(extra))
@@ -622,6 +654,8 @@ def replay(case):
         hbfs._guard(crowd_case, case)
     elif case['leg'] == 'replaced_world':
         hbfs._guard(replaced_world_case, case)
+    elif case['leg'] == 'bigint_crowd':
+        hbfs._guard(bigint_crowd_case, case)
     elif case['leg'] == 'nan':
         hbfs._guard(nan_case, case)
     elif case['leg'] == 'resized_world':
